@@ -55,11 +55,17 @@ Lemma step_set : forall cmds pre ch v k post s cur, cmds = pre ++ CSet ch v k ::
   vm_step cmds s = Running (mkV cur (v_time s) (aset ck_eqb (ch, k) v (v_regs s)) (v_hist s) (v_counts s) (S (length pre))).
 Proof. intros cmds pre ch v k post s cur -> H E. unfold vm_step. rewrite H, nth_error_mid, E. reflexivity. Qed.
 
+Lemma set_nth_some_lt {A} : forall i (x : A) l l', set_nth i x l = Some l' -> Nat.ltb i (length l) = true.
+Proof.
+  induction i as [|i IH]; intros x l l' H; destruct l as [|y l]; cbn in *; try discriminate; auto.
+  destruct (set_nth i x l) eqn:E; [|discriminate]. apply (IH _ _ _ E).
+Qed.
+
 Lemma step_inc : forall cmds pre ch d k post s old cur, cmds = pre ++ CInc ch d k :: post -> v_pc s = length pre ->
   alookup ck_eqb (ch, k) (v_regs s) = Some old ->
   set_nth ch (Some (old + d)%Q) (v_cur s) = Some cur ->
   vm_step cmds s = Running (mkV cur (v_time s) (aset ck_eqb (ch, k) (old + d)%Q (v_regs s)) (v_hist s) (v_counts s) (S (length pre))).
-Proof. intros cmds pre ch d k post s old cur -> H E1 E2. unfold vm_step. rewrite H, nth_error_mid, E1, E2. reflexivity. Qed.
+Proof. intros cmds pre ch d k post s old cur -> H E1 E2. unfold vm_step. rewrite H, nth_error_mid, (set_nth_some_lt _ _ _ _ E2), E1, E2. reflexivity. Qed.
 
 Lemma step_label : forall cmds pre idx n post s, cmds = pre ++ CLabel idx n :: post -> v_pc s = length pre ->
   vm_step cmds s = Running (mkV (v_cur s) (v_time s) (v_regs s) (v_hist s) (aset Z.eqb idx (n - 1) (v_counts s)) (S (length pre))).
